@@ -39,6 +39,7 @@ INSTRUMENTED = [
     "internal/message/message.go",
     "internal/security/channel.go",
     "internal/security/key.go",
+    "internal/service/keygen/keygen.go",
     "internal/security/cipher/base64.go",
     "internal/security/cipher/salsa.go",
     "internal/security/cipher/shuffle.go",
